@@ -44,7 +44,7 @@ CHECKS = {
     ),
     "C12": (
         "model_checking",
-        "grid enumeration of (state, action, key) triples per environment in eager/jit/vmap modes with sub-batch, repetition and re-trace checks; vmapped vs independent collection differential plus per-stream reference validation of the real iteration",
+        "grid enumeration of (state, action, key) triples per environment in eager/jit/vmap modes with sub-batch, repetition and re-trace checks; vmapped vs independent collection differential plus per-stream reference validation of the real iteration; per-environment randomness through the real reset/iteration of all five algorithms (environments starting in the same state must be separated by some explored key)",
         "Every classic-control environment bare and under each wrapper, and the MJX environments (quick: 4, thorough: all 11 plus the 3 G1 tasks): all functional components on a grid of triples in three modes, every "
         "contiguous sub-batch, bit-identical repetition, interleaving and re-tracing; vmapped collect_rollout vs N independent single-environment collections (PPO/A2C/DQN/SAC, scripted and MLP policies, N=2..4) and "
         "the real iteration with N parallel environments validated stream by stream against the reference collector.",
@@ -88,7 +88,7 @@ CHECKS = {
     ),
     "C01": (
         "model_checking",
-        "explicit-state BFS of (wrapper stack x tabular MDP state x counters) with the real env.step; action trees for classic control; reference MDP with auto-reset",
+        "explicit-state BFS of (wrapper stack x tabular MDP state x counters) with the real env.step; action trees for classic control; reference MDP with auto-reset; freshness of (auto-)reset states over 32 keys under every single wrapper and through 12 boundaries of the Gym adapter",
         "For every wrapper stack (depth<=1 and TimeLimit-containing depth-2; depth-3 thorough) over every 2-state tabular MDP (all transition tables, terminal/initial "
         "sets, time limits) all states reachable from reset are explored with the real env.step over every in-space action and every key of K; each transition is "
         "judged against a reference MDP with auto-reset (reward/flags of the transition taken, fresh initial state with clocks and counters restarted and its own "
@@ -108,7 +108,7 @@ CHECKS = {
     ),
     "C07": (
         "exploration",
-        "exhaustive enumeration of replay batches over a finite flag/action/reward alphabet x all action-value orderings on the real dqn_loss / sac_train; closed-form float64 targets and gradients",
+        "exhaustive enumeration of replay batches over a finite flag/action/reward alphabet x all action-value orderings on the real dqn_loss / sac_train; closed-form float64 targets and gradients; the same closed forms observed through the real reset + iteration of DQN and SAC on single-row environments (wiring of target networks and gamma)",
         "All batches of 1-2 (3 thorough) transitions over every (done,timeout) combination, action, next state and reward alphabet, with tabular online/target Q-functions ranging over all strict "
         "orderings (so Double DQN, vanilla DQN and online self-evaluation give different numbers), are pushed through the real DQN.dqn_loss_grad; SAC.sac_train is run on buffers holding exactly one batch "
         "with linear critics from a weight alphabet and SGD swapped in so the applied critic gradient is read back exactly. Loss values, gradients (targets constant), critic invariance under the actor branch "
@@ -118,7 +118,7 @@ CHECKS = {
     ),
     "C08": (
         "exploration",
-        "exhaustive grid of rollout buffers straddling both clip edges and all value-clip regions on the real ppo/a2c/reinforce loss functions; float64 objectives, finite-difference gradients, clip->Adam reference",
+        "exhaustive grid of rollout buffers straddling both clip edges and all value-clip regions on the real ppo/a2c/reinforce loss functions; float64 objectives, finite-difference gradients, clip->Adam reference; the real train() of each algorithm with every hyper-parameter away from its default (SGD swapped in) against the static loss; on-policy corollary on masked MDPs",
         "Every buffer of 1-3 (4 thorough) rows over a grid of advantages, probability ratios on both sides of both clip edges, value/return configurations inside and beyond the value clip, all flag and "
         "coefficient settings, evaluated by the real static loss functions with a tabular policy whose parameters are the per-row logits/values; loss, every reported statistic, gradients (against central "
         "differences of the float64 objective), the zero-gradient corollary for clipped samples, ratios=1/KL=0 on buffers collected by the real collector, and two consecutive optimiser updates against a "
@@ -188,7 +188,7 @@ CHECKS = {
     ),
     "C06": (
         "model_checking",
-        "explicit-state BFS over ring-buffer fill states driving the real add/sample; deque reference",
+        "explicit-state BFS over ring-buffer fill states driving the real add/sample; deque reference; the probability vector the real sample() hands to jax.random.choice is intercepted and judged in every explored state (exact zero on unwritten slots, no replacement), which decides the sampling clause for all keys",
         "All insertion histories up to 3 wraps for every capacity 1..5 (and every fill-level tuple of 2-3 "
         "per-environment buffers) are executed on the real ReplayBuffer; contents are compared with "
         "deque(maxlen=C) after every prefix and every state is sampled with every legal batch size and every key of K.",
